@@ -4,10 +4,9 @@
    two synchronisation points.
 
    - payloads, metadata and methods are opaque tokens (Z);
-   - the multiplexer mutex is held across a blocking operation only by the read
-     loop (the send into a full per-call channel in handleResponse): that is the
-     [RLHold] state; every other critical section is one atomic rule that is
-     enabled only while the mutex is free;
+   - the multiplexer mutex is never held across a blocking operation (since the
+     D-11c fix the read loop waits for room in a full per-call queue without it:
+     the [RLHold] state), so every critical section is one atomic rule;
    - the stream's [protected] mutex is held across a blocking operation only by
      the stream loop's deferred block ([LTdUnreg]);
    - transport writes succeed or fail at once (mode set by the environment);
@@ -68,7 +67,7 @@ Definition ctx_done (c : ctxst) : bool := match c with CtxLive => false | _ => t
 
 Record chan := mkChan { cbuf : option env; cclosed : bool }.   (* capacity 1 *)
 
-Inductive rlpc := RLRead | RLHold (e : env) | RLDead.
+Inductive rlpc := RLRead | RLHold (c : nat) (e : env) | RLDead.
 
 (* call thread (CallUnaryMethod / NewStreamReadWriter+newStream) *)
 Inductive cpc :=
@@ -136,8 +135,6 @@ Record state := mkState {
 Definition init : state := mkState 0 false RLRead [] false false [] [].
 
 (* ---------- helpers ---------- *)
-Definition mutex_free (s : state) : bool := match rl s with RLHold _ => false | _ => true end.
-
 Definition protected_free (k : call) : bool :=
   match s_loop k with LExit | LTdUnreg => false | _ => true end.
 
@@ -273,7 +270,7 @@ Definition r_rl_read (s : state) : option state :=
               | Some k =>
                   match cbuf (k_chan k) with
                   | None => Some (set_call s1 c (set_chan k (mkChan (Some e) false) true))
-                  | Some _ => Some (mkState (counter s1) (rerr s1) (RLHold e) (inbox s1) (inbox_failed s1)
+                  | Some _ => Some (mkState (counter s1) (rerr s1) (RLHold c e) (inbox s1) (inbox_failed s1)
                                             (wfail s1) (calls s1) (log s1))
                   end
               end
@@ -287,22 +284,17 @@ Definition r_rl_read (s : state) : option state :=
   | _ => None
   end.
 
-(* read loop blocked in the channel send: the consumer made room *)
+(* read loop waiting for room in the call's queue: select (queue <- e | done) *)
 Definition r_rl_unblock (s : state) : option state :=
   match rl s with
-  | RLHold e =>
-      match find_reg (eid e) (calls s) 0 with
-      | None => None      (* cannot happen: unregistering needs the mutex we hold *)
-      | Some c =>
-          match nth_error (calls s) c with
-          | None => None
-          | Some k =>
-              match cbuf (k_chan k) with
-              | None =>
-                  let s1 := mkState (counter s) (rerr s) RLRead (inbox s) (inbox_failed s) (wfail s) (calls s) (log s) in
-                  Some (set_call s1 c (set_chan k (mkChan (Some e) false) true))
-              | Some _ => None
-              end
+  | RLHold c e =>
+      match nth_error (calls s) c with
+      | None => None
+      | Some k =>
+          let s1 := mkState (counter s) (rerr s) RLRead (inbox s) (inbox_failed s) (wfail s) (calls s) (log s) in
+          match cbuf (k_chan k) with
+          | None => Some (set_call s1 c (set_chan k (mkChan (Some e) (cclosed (k_chan k))) (k_reg k)))
+          | Some _ => if cclosed (k_chan k) then Some s1 (* the call has gone: dropped *) else None
           end
       end
   | _ => None
@@ -314,17 +306,15 @@ Definition r_check (c : nat) (s : state) : option state :=
   | Some k =>
       match k_pc k with
       | PCheck park =>
-          if mutex_free s then
-            if rerr s then
-              if k_unary k
-              then Some (add_log (set_call s c (set_pc k PRet)) [EvUnaryRet c (UErr EConn)])
-              else Some (add_log (set_call s c (set_pc k POpenFailed)) [EvOpenRet c (Some EConn)])
-            else if park then Some (set_call s c (set_pc k PParked))
-            else (* atomic.AddUint64 *)
-              let id := counter s + 1 in
-              let s1 := mkState id (rerr s) (rl s) (inbox s) (inbox_failed s) (wfail s) (calls s) (log s) in
-              Some (set_call s1 c (set_id (set_pc k PReg) id))
-          else None
+          if rerr s then
+            if k_unary k
+            then Some (add_log (set_call s c (set_pc k PRet)) [EvUnaryRet c (UErr EConn)])
+            else Some (add_log (set_call s c (set_pc k POpenFailed)) [EvOpenRet c (Some EConn)])
+          else if park then Some (set_call s c (set_pc k PParked))
+          else (* atomic.AddUint64 *)
+            let id := counter s + 1 in
+            let s1 := mkState id (rerr s) (rl s) (inbox s) (inbox_failed s) (wfail s) (calls s) (log s) in
+            Some (set_call s1 c (set_id (set_pc k PReg) id))
       | _ => None
       end
   | None => None
@@ -336,7 +326,6 @@ Definition r_reg (c : nat) (s : state) : option state :=
   | Some k =>
       match k_pc k with
       | PReg =>
-          if mutex_free s then
             if rerr s then
               if k_unary k
               then Some (add_log (set_call s c (set_pc k PRet)) [EvUnaryRet c (UErr EConn)])
@@ -352,7 +341,6 @@ Definition r_reg (c : nat) (s : state) : option state :=
                 then Some (set_call s c (set_pc k1 (POpenUnreg (if ctx_done (k_ctx k) then ctx_raw k else EWrite))))
                 else Some (add_log (set_call s c (set_loop (set_pc k1 POpen) LRead))
                                    [EvWrite (open_env (k_id k)); EvOpenRet c None])
-          else None
       | _ => None
       end
   | None => None
@@ -368,9 +356,20 @@ Definition r_wait (c : nat) (s : state) : option state :=
           | Some e => Some (set_call s c (set_pc (set_chan k (mkChan None (cclosed (k_chan k))) (k_reg k)) (PUnreg (classify e))))
           | None =>
               if cclosed (k_chan k) then Some (set_call s c (set_pc k (PUnreg (UErr EClosed))))
-              else if ctx_done (k_ctx k) then Some (set_call s c (set_pc k (PUnreg (UErr (ctx_raw k)))))
               else None
           end
+      | _ => None
+      end
+  | None => None
+  end.
+
+(* ... the ctx case of the same select: enabled whenever the context is done,
+   whatever else is ready (Go picks any ready case) *)
+Definition r_wait_ctx (c : nat) (s : state) : option state :=
+  match nth_error (calls s) c with
+  | Some k =>
+      match k_pc k with
+      | PWait => if ctx_done (k_ctx k) then Some (set_call s c (set_pc k (PUnreg (UErr (ctx_raw k))))) else None
       | _ => None
       end
   | None => None
@@ -382,15 +381,11 @@ Definition r_unreg (c : nat) (s : state) : option state :=
   | Some k =>
       match k_pc k with
       | PUnreg r =>
-          if mutex_free s then
-            let k1 := if k_reg k then set_chan k (mkChan (cbuf (k_chan k)) true) false else k in
-            Some (add_log (set_call s c (set_pc k1 PRet)) [EvUnaryRet c r])
-          else None
+          let k1 := if k_reg k then set_chan k (mkChan (cbuf (k_chan k)) true) false else k in
+          Some (add_log (set_call s c (set_pc k1 PRet)) [EvUnaryRet c r])
       | POpenUnreg e =>
-          if mutex_free s then
-            let k1 := if k_reg k then set_chan k (mkChan (cbuf (k_chan k)) true) false else k in
-            Some (add_log (set_call s c (set_pc k1 POpenFailed)) [EvOpenRet c (Some e)])
-          else None
+          let k1 := if k_reg k then set_chan k (mkChan (cbuf (k_chan k)) true) false else k in
+          Some (add_log (set_call s c (set_pc k1 POpenFailed)) [EvOpenRet c (Some e)])
       | _ => None
       end
   | None => None
@@ -424,15 +419,25 @@ Definition r_loop_read (c : nat) (s : state) : option state :=
                 end
           | None =>
               if cclosed (k_chan k) then
-                (* closed channel: the recorded read error (needs the mutex) or "respChan closed" *)
-                if mutex_free s then
-                  let err := if rerr s then EConn else EClosed in
-                  Some (set_call s c (loop_exit (set_latch k (inr err)) (Some err) false None false))
-                else None
-              else if sctx_done k then
-                Some (set_call s c (loop_exit (set_latch k (inr (ctx_status k))) (Some (ctx_status k)) false None false))
+                (* handler closed: the recorded read error or "respChan closed" *)
+                let err := if rerr s then EConn else EClosed in
+                Some (set_call s c (loop_exit (set_latch k (inr err)) (Some err) false None false))
               else None
           end
+      | _ => None
+      end
+  | None => None
+  end.
+
+(* ... the ctx case of rw.Read's select *)
+Definition r_loop_read_ctx (c : nat) (s : state) : option state :=
+  match nth_error (calls s) c with
+  | Some k =>
+      match s_loop k with
+      | LRead =>
+          if sctx_done k then
+            Some (set_call s c (loop_exit (set_latch k (inr (ctx_status k))) (Some (ctx_status k)) false None false))
+          else None
       | _ => None
       end
   | None => None
@@ -448,11 +453,22 @@ Definition r_loop_hand (c : nat) (s : state) : option state :=
           | RSel =>
               Some (add_log (set_call s c (set_recv (set_loop k LRead) RNone))
                             [EvRecvRet c (if b <? 0 then RErr EUnmarshal else RMsg b)])
-          | _ =>
-              if sctx_done k
-              then Some (set_call s c (loop_exit k (Some (ctx_status k)) false None false))
-              else None
+          | _ => None
           end
+      | _ => None
+      end
+  | None => None
+  end.
+
+(* ... the ctx case of the hand-off select *)
+Definition r_loop_hand_ctx (c : nat) (s : state) : option state :=
+  match nth_error (calls s) c with
+  | Some k =>
+      match s_loop k with
+      | LHand b =>
+          if sctx_done k
+          then Some (set_call s c (loop_exit k (Some (ctx_status k)) false None false))
+          else None
       | _ => None
       end
   | None => None
@@ -482,13 +498,11 @@ Definition r_loop_unreg (c : nat) (s : state) : option state :=
   | Some k =>
       match s_loop k with
       | LTdUnreg =>
-          if mutex_free s then
-            let ch := if k_reg k then mkChan (cbuf (k_chan k)) true else k_chan k in
-            Some (set_call s c
-                    (mkCall (k_unary k) (k_payload k) (k_pc k) (k_id k) ch false (k_ctx k) LDead true
-                            (s_latch k) true true (l_rerr k) (l_trl k) (l_rerr k) (l_trl k) (l_hastrl k)
-                            (l_abort k) (s_recv k) (s_header k) (s_sendq k) (s_trailerq k)))
-          else None
+          let ch := if k_reg k then mkChan (cbuf (k_chan k)) true else k_chan k in
+          Some (set_call s c
+                  (mkCall (k_unary k) (k_payload k) (k_pc k) (k_id k) ch false (k_ctx k) LDead true
+                          (s_latch k) true true (l_rerr k) (l_trl k) (l_rerr k) (l_trl k) (l_hastrl k)
+                          (l_abort k) (s_recv k) (s_header k) (s_sendq k) (s_trailerq k)))
       | _ => None
       end
   | None => None
@@ -544,7 +558,7 @@ Definition r_trailer (c : nat) (s : state) : option state :=
       | OPending =>
           if protected_free k
           then Some (add_log (set_call s c (set_ops k (s_header k) (s_sendq k) ONone))
-                             [EvTrailerRet c (match s_trl k with Some (MdOk t) => Some t | _ => None end)])
+                             [EvTrailerRet c (match s_trl k with Some (MdOk t) => if t =? 0 then None else Some t | _ => None end)])
           else None
       | ONone => None
       end
@@ -563,22 +577,21 @@ Definition r_send (c : nat) (s : state) : option state :=
             if s_done k then
               Some (add_log (set_call s c k1) [EvSendRet c (match s_rerr k with Some e => Some e | None => None end)])
             else if sctx_done k || wfail s then
-              if mutex_free s then
                 let ch := if k_reg k1 then mkChan (cbuf (k_chan k1)) true else k_chan k1 in
                 let k2 := mkCall (k_unary k1) (k_payload k1) (k_pc k1) (k_id k1) ch false (k_ctx k1) (s_loop k1) true
                                  (s_latch k1) (s_rchclosed k1) (s_done k1) (s_rerr k1) (s_trl k1) (l_rerr k1) (l_trl k1)
                                  (l_hastrl k1) (l_abort k1) (s_recv k1) (s_header k1) (s_sendq k1) (s_trailerq k1) in
                 Some (add_log (set_call s c k2)
-                              [EvSendRet c (Some (if sctx_done k then ctx_raw k else if rerr s then EConn else EWrite))])
-              else None
+                              [EvSendRet c (Some (if rerr s then EConn else if sctx_done k then ctx_raw k else EWrite))])
             else Some (add_log (set_call s c k1) [EvWrite (body_env (k_id k) b); EvSendRet c None])
           else None
       | None :: rest =>
           (* CloseSend does not look at the terminal state *)
           let k1 := set_ops k (s_header k) rest (s_trailerq k) in
           if sctx_done k || wfail s
-          then Some (add_log (set_call s c k1)
-                             [EvCloseSendRet c (Some (if sctx_done k then ctx_raw k else if rerr s then EConn else EWrite))])
+          then (* a failed write is replaced by the recorded read error *)
+               Some (add_log (set_call s c k1)
+                             [EvCloseSendRet c (Some (if rerr s then EConn else if sctx_done k then ctx_raw k else EWrite))])
           else Some (add_log (set_call s c k1) [EvWrite (close_env (k_id k)); EvCloseSendRet c None])
       | [] => None
       end
@@ -587,8 +600,8 @@ Definition r_send (c : nat) (s : state) : option state :=
 
 (* every internal rule instance, in the priority order used by [settle] *)
 Definition per_call_rules : list (nat -> rule) :=
-  [r_check; r_reg; r_wait; r_unreg; r_loop_read; r_loop_hand; r_loop_exit; r_loop_unreg;
-   r_recv; r_header; r_trailer; r_send].
+  [r_check; r_reg; r_wait; r_wait_ctx; r_unreg; r_loop_read; r_loop_read_ctx; r_loop_hand; r_loop_hand_ctx;
+   r_loop_exit; r_loop_unreg; r_recv; r_header; r_trailer; r_send].
 
 Definition rules (s : state) : list rule :=
   r_rl_unblock :: r_rl_read ::
@@ -660,8 +673,10 @@ Definition ext (s : state) (a : act) : state :=
   | ACloseSend c => with_call s c (fun k => match k_pc k, s_sendq k with POpen, [] => Some (set_ops k (s_header k) [None] (s_trailerq k)) | _, _ => None end)
   | AHeader c => with_call s c (fun k => match k_pc k, s_header k with POpen, ONone => Some (set_ops k OPending (s_sendq k) (s_trailerq k)) | _, _ => None end)
   | ATrailer c => with_call s c (fun k => match k_pc k, s_trailerq k with POpen, ONone => Some (set_ops k (s_header k) (s_sendq k) OPending) | _, _ => None end)
-  | ACancel c => with_call s c (fun k => match k_ctx k with CtxLive => Some (set_ctx k CtxCanceled) | _ => None end)
-  | AExpire c => with_call s c (fun k => match k_ctx k with CtxLive => Some (set_ctx k CtxDeadline) | _ => None end)
+  (* a stream context that teardown has already cancelled keeps reporting Canceled: the later fate of
+     its parent is unobservable, so the action is a no-op then *)
+  | ACancel c => with_call s c (fun k => match k_ctx k, s_ctxc k with CtxLive, false => Some (set_ctx k CtxCanceled) | _, _ => None end)
+  | AExpire c => with_call s c (fun k => match k_ctx k, s_ctxc k with CtxLive, false => Some (set_ctx k CtxDeadline) | _, _ => None end)
   | ADeliver e => mkState (counter s) (rerr s) (rl s) (inbox s ++ [e]) (inbox_failed s) (wfail s) (calls s) (log s)
   | AFailRead => mkState (counter s) (rerr s) (rl s) (inbox s) true (wfail s) (calls s) (log s)
   | ASetWriteFail b => mkState (counter s) (rerr s) (rl s) (inbox s) (inbox_failed s) b (calls s) (log s)
@@ -704,4 +719,5 @@ Definition send_pending (k : call) : bool := match s_sendq k with [] => false | 
 Definition loop_alive (k : call) : bool := match s_loop k with LDead => false | _ => true end.
 Definition trailer_pending (k : call) : bool := match s_trailerq k with ONone => false | _ => true end.
 
-Definition wedged (s : state) : bool := negb (mutex_free s).
+(* the read loop is waiting for room in some call's queue (head-of-line blocking) *)
+Definition rl_blocked (s : state) : bool := match rl s with RLHold _ _ => true | _ => false end.
